@@ -12,6 +12,7 @@ from . import common as C
 
 
 _KEYS = {}
+_BEHS = {}
 
 
 def _fam_key(fam, tier, seed, hkey):
@@ -140,8 +141,10 @@ def behaviour_of(fam, tier, seed, tr, cdir=None):
     if cdir is None:
         binp, hkey = C.ensure_harness()
         cdir = os.path.join(C.WORK, "cache", _fam_key(fam, tier, seed, hkey))
-    behs = json.load(open(os.path.join(cdir, "behaviours.json")))
-    return behs[tr - 1]
+    if cdir not in _BEHS:
+        _BEHS.clear()
+        _BEHS[cdir] = json.load(open(os.path.join(cdir, "behaviours.json")))
+    return _BEHS[cdir][tr - 1]
 
 
 def merge_runs(pairs):
